@@ -273,6 +273,9 @@ SHAPES = {
     'quad': [(3, 0), (5, 0), (5, 2), (3, 2)], 'quad_cw': [(3, 0), (3, 2), (5, 2), (5, 0)],
     'quad_collinear': [(6, 0), (7, 0), (8, 0), (8, 2), (6, 2)],
     'arrow': [(9, 0), (13, 0), (10, 1), (9, 4)], 'arrow_cw': [(9, 0), (9, 4), (10, 1), (13, 0)][::1],
+    # the same concave quad with the reflex vertex at every ring position
+    'arrow_r1': [(59, 4), (59, 0), (63, 0), (60, 1)], 'arrow_r2': [(64, 0), (68, 0), (65, 1), (64, 4)][1:] + [(64, 0)],
+    'arrow_r3': [(70, 1), (69, 4), (69, 0), (73, 0)], 'arrow_r1_cw': [(75, 4), (76, 1), (79, 0), (75, 0)],
     'L': [(14, 0), (18, 0), (18, 4), (17, 4), (17, 1), (14, 1)],
     'L_collinear': [(19, 0), (21, 0), (23, 0), (23, 4), (22, 4), (22, 1), (19, 1)],
     'zigzag': [(24, 0), (29, 0), (29, 3), (27, 1), (26, 3), (25, 1), (24, 3)],
@@ -287,8 +290,8 @@ def body_dataset(ctx, kind):
     which = int(ctx.int('variant', 0, 3))
     if kind == 'mesh':
         names = list(SHAPES)
-        chosen = [names[(which * 3 + k * 2) % len(names)] for k in range(5)] + names[which::4]
-        chosen = list(dict.fromkeys(chosen))
+        # every shape, in an order that depends on the variant (so concave cells sit at different linear indexes)
+        chosen = names[which * 3:] + names[:which * 3]
         nodes, faces = [], []
         for nm in chosen:
             base = len(nodes)
